@@ -108,13 +108,19 @@ func multisetStr(m map[string]int, flip bool) string {
 
 // symmetricPair compares the key-constructor multisets of an add/remove pair.
 func symmetricPair(r *Run, add, del string, exceptAddOnly map[string]string) {
+	symmetricPairD(r, add, del, exceptAddOnly, 3)
+}
+
+// symmetricPairD: depth 3 compares constructor arguments of the paired
+// functions themselves (canonical form); depth 2 compares constructor names only.
+func symmetricPairD(r *Run, add, del string, exceptAddOnly map[string]string, depth int) {
 	fa, fd := r.Fn(add), r.Fn(del)
 	if fa == nil || fd == nil {
 		return
 	}
 	ma, md := map[string]int{}, map[string]int{}
-	keyCtors(r.W, fa, 3, ma, map[*core.FuncInfo]bool{})
-	keyCtors(r.W, fd, 3, md, map[*core.FuncInfo]bool{})
+	keyCtors(r.W, fa, depth, ma, map[*core.FuncInfo]bool{})
+	keyCtors(r.W, fd, depth, md, map[*core.FuncInfo]bool{})
 	for k, why := range exceptAddOnly {
 		if _, ok := ma[k]; ok {
 			delete(ma, k)
